@@ -465,8 +465,8 @@ def rule_r1(ctx: Ctx) -> None:
 
 
 def run(ctx: Ctx) -> None:
-    rule_r2(ctx)
-    rule_r1(ctx)
+    ctx.attempt(rule_r2, ctx)
+    ctx.attempt(rule_r1, ctx)
     ctx.assume("fractions.Fraction arithmetic is exact (trusted stdlib)")
     ctx.assume("assert statements in Constant.__init__ are beliefs, not guards (python -O removes them)")
     ctx.analysed["modules"] = [ATTR, PRIM]
